@@ -208,7 +208,7 @@ class PureScheduler:                                    # pylint: disable=r0902
           bool: returns True if and only if :meth:`co_run()`
           has failed because of a time out.
         """
-        return self._failed_timeout
+        return self._failed_timeout is not False
 
     def failed_critical(self):
         """
@@ -229,7 +229,7 @@ class PureScheduler:                                    # pylint: disable=r0902
           At this point the code does not check that :meth:`co_run()` has
           actually been called.
         """
-        if self._failed_timeout:
+        if self._failed_timeout is not False:
             return "TIMED OUT after {}s".format(self._failed_timeout)
         if self._failed_critical:
             return "a CRITICAL job has raised an exception"
